@@ -171,8 +171,19 @@ class Driver:
         (iso or self.iso).write_fp(f, blocksize or self.blocksize, **kw)
         return d, f
 
-    def open_disk(self, disk, mode='rb', faults=None):
+    def open_disk(self, disk, mode='rb', faults=None, refused_first=None):
         iso = self.pm.PyCdlib(always_consistent=bool(self.cfg.get('always_consistent')))
+        if refused_first is not None:
+            # the same object is first handed a damaged copy of the image
+            data = bytes(disk.data)
+            cut = max(17 * 2048, int(len(data) * refused_first['cut']) // 2048 * 2048)
+            bad = data[:cut] if refused_first.get('how') == 'truncate' else data[:cut] + b'\x00' * (len(data) - cut)
+            try:
+                iso.open_fp(SimFile(SimDisk('damaged-first', bad), 'rb'))
+                self.refused_open = Outcome(True)
+                iso.close()
+            except Exception as e:   # noqa
+                self.refused_open = Outcome(False, e)
         fp = SimFile(disk, mode, faults)
         iso.open_fp(fp)
         return iso, fp
@@ -226,7 +237,7 @@ class Driver:
                     except Exception:
                         pass
 
-    def restart(self, via='fp'):
+    def restart(self, via='fp', refused_first=None):
         """write_fp to a fresh disk, drop every in-memory object, open what the
         disk durably holds."""
         d, f = self.write()
@@ -243,7 +254,7 @@ class Driver:
             iso.open(name)
             self.iso = iso
         else:
-            self.iso, self.cur_fp = self.open_disk(d)
+            self.iso, self.cur_fp = self.open_disk(d, refused_first=refused_first)
         try:
             old.close()
         except Exception:
